@@ -139,7 +139,36 @@ theorem value_reports_once_generated (x : Ext) (tmpl : Bool) (m : Meta) :
   rw [generated_check_project_eq_model, generated_check_translator_eq_model]
   exact ⟨⟨_, rfl, by simpa using (C15.value_reports_once x tmpl m).2.2.1⟩, ⟨_, rfl, by simpa using (C15.value_reports_once x tmpl m).2.2.2.1⟩⟩
 
+/-! ## `Checker.check_comments` -/
+
+/-- `check_comments(ctx)` as regenerated: one `boilerplate-in-initial-comments` per line of `ctx.file.header.splitlines()` on which
+    the alternation of the pattern literals (three always, three more outside templates) has a match — the model's tags, in order -/
+theorem generated_check_comments_eq_model (x : Ext) (tmpl : Bool) (header : Str) (out : List TagCall) :
+    Generated.HdrChk.check_comments x tmpl header out = .ok (out ++ checkComments x.db tmpl header) :=
+  I18n.Hdr.Gen.check_comments_eq x tmpl header out
+
+/-- **comment_search_spec**, of the regenerated method: a line is reported iff it is a line of the comments and at some position
+    one of the patterns matches -/
+theorem comment_search_spec_generated (x : Ext) (tmpl : Bool) (header : Str) (t : TagCall) :
+    (∃ ts, Generated.HdrChk.check_comments x tmpl header [] = .ok ts ∧ t ∈ ts) ↔
+      ∃ line ∈ splitlines header, (∃ pre rest, line = pre ++ rest ∧ commentHit x.db tmpl pre.getLast? rest = true) ∧
+        t = ⟨"boilerplate-in-initial-comments", [.str line]⟩ := by
+  rw [generated_check_comments_eq_model]
+  simp only [List.nil_append, checkComments]
+  constructor
+  · rintro ⟨ts, e, h⟩
+    injection e with e; subst e
+    obtain ⟨line, hl, hf⟩ := List.mem_filterMap.1 h
+    by_cases hc : commentLineHit x.db tmpl line = true
+    · rw [if_pos hc] at hf
+      exact ⟨line, hl, (C15.comment_search_spec x.db tmpl line).1 hc, by injection hf with hf; exact hf.symm⟩
+    · rw [if_neg hc] at hf; cases hf
+  · rintro ⟨line, hl, hit, rfl⟩
+    refine ⟨_, rfl, List.mem_filterMap.2 ⟨line, hl, ?_⟩⟩
+    rw [if_pos ((C15.comment_search_spec x.db tmpl line).2 hit)]; rfl
+
 /-! Non-vacuity -/
+
 
 
 example : Generated.GettextHdr.parse_header "A: b \nstray\nX-y:\tz\n".toList =
